@@ -94,6 +94,10 @@ def cases(ctx):
                 continue
             if mine():
                 yield dict({"kind": "request", "type": tp, "number": rng.choice([1, 2]), "socket": 0, "remote": "bob"}, **extra)
+    for tp in ("K", "M", "R"):
+        for number in (1, 2, 3):
+            if mine():
+                yield {"kind": "request", "type": tp, "number": number, "socket": 0, "remote": "bob", "number_from_host": True}
     # a repeater node: one local socket id towards two remote nodes, on a network stack whose purpose ids are per (remote, socket)
     for sid in (0, 1, 3):
         for order in (["bob", "charlie"], ["charlie", "bob"], ["bob", "charlie", "bob"]):
@@ -506,6 +510,14 @@ def _request(ctx, case):
         kw["min_fidelity_all_at_end"] = case["fidelity"]
         kw["max_tries"] = 3
     nontrivial = number >= 2 or len(kw) > 0
+    handles = None
+    num_arg = number
+    if case.get("number_from_host"):
+        # the number of pairs is a value the host read from an earlier result (an int whose value lives in __int__, like a Future
+        # that has received its value)
+        from vf.harness.hostdiff import _HostValue
+        num_arg = _HostValue(number)
+        ctx.count("pair_counts_given_as_host_values")
     try:
         with pipe.conn as conn:
             if case.get("via_create"):
@@ -516,11 +528,11 @@ def _request(ctx, case):
             elif tp == "K" and case.get("with_info"):
                 es.create_keep_with_info(number, **kw)      # the same request through the entry point that also returns the info objects
             elif tp == "K":
-                es.create_keep(number, **kw)
+                handles = es.create_keep(num_arg, **kw)
             elif tp == "M":
-                es.create_measure(number, **kw)
+                handles = es.create_measure(num_arg, **kw)
             else:
-                es.create_rsp(number, **kw)
+                handles = es.create_rsp(num_arg, **kw)
             conn.flush()
     except (hc.ControllerFault, hc.Deadlock, hc.StepLimit) as e:
         ctx.fail(case, f"create_{tp} {kw}: controller run failed: {e}")
@@ -528,6 +540,9 @@ def _request(ctx, case):
     puts = pipe.stack.puts
     if len(puts) != 1:
         ctx.fail(case, f"{len(puts)} requests reached the network stack for one create call")
+        return ctx.case(case, nontrivial)
+    if handles is not None and len(handles) != number:
+        ctx.fail(case, f"create_{tp}({number}, {kw}): {number} pair(s) were requested, the call returned {len(handles)} result handle(s)")
         return ctx.case(case, nontrivial)
     got = puts[0]
     rot_l = tuple(case.get("rotations_local") or (BASIS_ROT[case["basis_local"]] if case.get("basis_local") else (0, 0, 0)))
